@@ -83,6 +83,8 @@ type escn struct {
 	CC       cconf
 	Late     bool  // honest peers answer LATE: well-formed, solicited responses after the requester's response timeout / cancelled context (late_test.go)
 	LC       lconf
+	HitRun   bool  // "hit-and-run" offenders: the offending message is followed at once by the close of the stream AND of the connection (hitrun_test.go)
+	HR       hconf
 	Events   []eev
 }
 
@@ -100,7 +102,7 @@ func (s *escn) lim(x int, proc string) (int, int) {
 	if i >= 0 && i < len(s.PP) {
 		P = s.PP[i]
 	}
-	if (s.Mirror || s.Conc) && x != 0 {
+	if (s.Mirror || s.Conc || s.HitRun) && x != 0 {
 		L = 1000 * L
 	}
 	return L, P
@@ -131,6 +133,11 @@ func genScenario() *rapid.Generator[escn] {
 		// (rapid draws small values and the bounds of a range far more often than the middle: the middle values are used,
 		// measured shares ~20 % and ~10 %)
 		switch f := rapid.IntRange(0, 19).Draw(t, "flavour"); {
+		case (f == 3 || f == 13) && os.Getenv("VERIF_C18_NO_HITRUN") == "":
+			// hit-and-run offenders (hitrun_test.go): one value taken from the general scenarios and one from the
+			// multi-connection peers (measured share of the draw: see notes/C18.md)
+			genHitRun(t, &s)
+			return s
 		case f >= 8 && f <= 13:
 			genMulti(t, &s)
 			return s
@@ -514,6 +521,8 @@ type erun struct {
 	// optional (conc_test.go): the logger handed to node i, and a callback run by the echo handlers of node i
 	loggerFor func(i int) log.Logger
 	onServe   func(i int, req *p2p.Request)
+	// optional (hitrun_test.go): called by the strict handler of node i right before and right after its ApplyPenalty/BanPeer call
+	onStrict func(i int, req *p2p.Request, phase string)
 	// legal / mirror scenarios
 	started    time.Time // all nodes started (their rate limiters tick from about here)
 	firstReset bool      // a counter reset was observed at least one interval after the start
@@ -603,13 +612,20 @@ func (r *erun) setup() error {
 				return err
 			}
 		}
+		strictNode := i
 		if err := c.RegisterRPCHandler(procStrict, func(w p2p.ResponseWriter, req *p2p.Request) {
 			// like sync.HandleRPCEndpoint*: an invalid request penalises or bans the sender through the public API
 			if len(req.Data) == 1 {
+				if r.onStrict != nil {
+					r.onStrict(strictNode, req, "before")
+				}
 				if req.Data[0] == 0 {
 					c.BanPeer(req.PeerID)
 				} else {
 					c.ApplyPenalty(req.PeerID, int(req.Data[0]))
+				}
+				if r.onStrict != nil {
+					r.onStrict(strictNode, req, "after")
 				}
 			}
 			w.Write([]byte{1})
@@ -1609,6 +1625,9 @@ func runScenario(s escn) *seqResult {
 	}
 	if s.Late {
 		return runLateScenario(s)
+	}
+	if s.HitRun {
+		return runHitRunScenario(s)
 	}
 	res := &seqResult{labels: map[string]bool{}}
 	r := &erun{s: s, start: time.Now(), res: res}
